@@ -4,13 +4,14 @@ import math
 
 from harness.core import pool, tb
 
-PROOF_MODULE = ["OdeVerif.Proofs.C12", "OdeVerif.Proofs.RefineIntegrator", "OdeVerif.Proofs.RefineUpdateStep", "OdeVerif.Proofs.RefineIntegratorInit"]
-GENERATED = ['PyIntegrator', "PyUpdateStep", "PyIntegratorInit"]
+PROOF_MODULE = ["OdeVerif.Proofs.C12", "OdeVerif.Proofs.RefineIntegrator", "OdeVerif.Proofs.RefineUpdateStep", "OdeVerif.Proofs.RefineIntegratorInit", "OdeVerif.Proofs.RefineAnalyticInit"]
+GENERATED = ['PyIntegrator', "PyUpdateStep", "PyIntegratorInit", "PyAnalyticInit"]
 THEOREMS = ["OdeVerif.C12.setSpikeTimes_sorted", "OdeVerif.C12.setSpikeTimes_grouped", "OdeVerif.C12.getValue_history_independent",
             "OdeVerif.C12.spec_zero", "OdeVerif.C12.spec_flow", "OdeVerif.C12.spec_jump",
             "OdeVerif.Refine.getValue_refines", "OdeVerif.Refine.mergeSpikes_refines", "OdeVerif.Refine.setSpikeTimes_refines",
             "OdeVerif.Refine.updateStep_lookup", "OdeVerif.Refine.updateStep_order_invariant",
-            "OdeVerif.Refine.setInitialValues_refines", "OdeVerif.Refine.setIvSpec_lookup", "OdeVerif.Refine.setIvSpec_unknown"]
+            "OdeVerif.Refine.setInitialValues_refines", "OdeVerif.Refine.setIvSpec_lookup", "OdeVerif.Refine.setIvSpec_unknown",
+            "OdeVerif.Refine.analyticInit_starting", "OdeVerif.Refine.analyticInit_subsDict", "OdeVerif.Refine.analyticInit_update", "OdeVerif.Refine.analyticInit_update_keys"]
 LEVEL = "proof"
 
 # analytic solver dictionaries used by the recorder runs (hand-written: the recorder never evaluates them)
